@@ -197,3 +197,67 @@ Theorem C31_res53_small_values : bits_of (res53 0) = 0%Z /\ bits_of (res53 1) = 
 Proof. exact (@res53_small_values). Qed.
 Print Assumptions C31_res53_small_values.
 
+Theorem C31_uniform_history_refines ops : forall o, uinv o ->
+  fst (urun o ops) = uspec_run (uo_min o) (uo_max o) (uo_st o) ops.
+Proof. exact (uniform_history_refines ops). Qed.
+Print Assumptions C31_uniform_history_refines.
+
+Theorem C31_uniform_history_new mn mx seed ops :
+  fst (urun (unew mn mx seed) ops) = uspec_run mn mx (set_seed seed) ops.
+Proof. exact (uniform_history_new mn mx seed ops). Qed.
+Print Assumptions C31_uniform_history_new.
+
+Theorem C31_gget_value_law fuel o r o' : gget RG fuel o = Some (r, o') ->
+  o_val r = o_mean r + o_sd r * o_dev r /\ o_mean r = go_mean o /\ o_sd r = go_sd o /\
+  go_mean o' = go_mean o /\ go_sd o' = go_sd o.
+Proof. exact (gget_value_law fuel o r o'). Qed.
+Print Assumptions C31_gget_value_law.
+
+Theorem C31_gauss_history_value_law fuel ops : forall o r, In (Some r) (grun RG fuel o ops) ->
+  o_val r = o_mean r + o_sd r * o_dev r.
+Proof. exact (gauss_history_value_law fuel ops). Qed.
+Print Assumptions C31_gauss_history_value_law.
+
+Theorem C31_gauss_history_zero_sd fuel ops o r : In (Some r) (grun RG fuel o ops) -> o_sd r = 0 -> o_val r = o_mean r.
+Proof. exact (gauss_history_zero_sd fuel ops o r). Qed.
+Print Assumptions C31_gauss_history_zero_sd.
+
+Theorem C31_gauss_history_params fuel ops : forall o, ~ In None (grun RG fuel o ops) ->
+  map (fun r => (o_mean r, o_sd r)) (somes (grun RG fuel o ops)) = gparams (go_mean o) (go_sd o) ops.
+Proof. exact (gauss_history_params fuel ops). Qed.
+Print Assumptions C31_gauss_history_params.
+
+Theorem C31_gauss_reseed_clears_cache fuel o us t :
+  grun RG fuel o (GSetSeed us :: GGet :: t) =
+  match polar RG fuel us with
+  | Some (x, y, m, rest) =>
+      Some (mkGOut (go_mean o) (go_sd o) (x * m) (go_mean o + go_sd o * x * m))
+      :: grun RG fuel (mkGO (go_mean o) (go_sd o) (Some (y * m)) rest) t
+  | None => [None]
+  end.
+Proof. exact (gauss_reseed_clears_cache fuel o us t). Qed.
+Print Assumptions C31_gauss_reseed_clears_cache.
+
+Theorem C31_gget_matches_gauss_value fuel o :
+  match gget RG fuel o, gauss_value RG fuel (go_mean o) (go_sd o) (go_cache o) (go_us o) with
+  | Some (r, o'), Some (v, c, rest) => o_val r = v /\ go_cache o' = c /\ go_us o' = rest
+  | None, None => True
+  | _, _ => False
+  end.
+Proof. exact (gget_matches_gauss_value fuel o). Qed.
+Print Assumptions C31_gget_matches_gauss_value.
+
+Theorem C31_gauss_history_example :
+  let o := mkGO 10 2 None [1 / 2; 3 / 4] in
+  exists z1 z2, grun RG 4 o [GGet; GSetMean 100; GSetSd 0; GGet]
+    = [Some (mkGOut 10 2 z1 (10 + 2 * 0 * multiplier RG 0 (1 / 2))); Some (mkGOut 100 0 z2 (100 + 0 * z2))].
+Proof. exact (@gauss_history_example). Qed.
+Print Assumptions C31_gauss_history_example.
+
+
+(* proved inside a Section of C31_Proofs.v for an arbitrary number type T and operations G *)
+Theorem C31_gauss_history_deviates_independent (T : Type) (G : GOps T) fuel ops : forall o m s,
+  map (@o_dev T) (somes (grun G fuel o ops)) =
+  map (@o_dev T) (somes (grun G fuel (mkGO m s (go_cache o) (go_us o)) (gerase ops))).
+Proof. exact (gauss_history_deviates_independent G fuel ops). Qed.
+Print Assumptions C31_gauss_history_deviates_independent.
